@@ -47,6 +47,17 @@ def explore(core, rng, tier, seed, search=False):
                                 continue
                             sc.append("recvcontext %d %d %d %d %d" % (cap, fill, closed, ctx, peer))
     scripts.append(sc)
+    # the caller's buffer with spare capacity behind its length (the limit is len(buf); the spare part stays untouched)
+    sc = []
+    for cap in range(5):
+        for fill in range(cap + 1):
+            for closed in (0, 1):
+                for bl in range(4):
+                    for extra in (1, 3):
+                        sc.append("recvqueuedfullcap %d %d %d %d %d" % (cap, fill, closed, bl, bl + extra))
+    scripts.append(sc)
+    # a close racing the timer of RecvTimeout on an empty channel: (0,false) whichever wins
+    scripts.append(["recvclose %d %d %d %d" % (c, t, 150 if tier == "quick" else 3000, p) for c in (0, 1) for t in (1, 2) for p in (1, 4)])
     # concurrent queued receivers (no sender): conservation under real parallelism
     sc = []
     for _ in range(40 if tier == "quick" else 1000):
